@@ -74,3 +74,21 @@ Definition holds (tr : list ev) (i l : nat) : Prop :=
 Definition race (tr : list ev) (x : nat) : Prop :=
   exists i j t t' w w', i < j /\ nth_error tr i = Some (Acc t x w) /\ nth_error tr j = Some (Acc t' x w') /\
     t <> t' /\ (w = true \/ w' = true) /\ ~ hb tr i j.
+
+(* package-level variables of the engine's packages that can hold state (Gen/Facts.v package_level_state, regenerated
+   from the sources on every run): the ones that exist have been looked at, one by one --
+     ..buildDefaultIDGenerator                        a function value, assigned where it is declared and never again
+     pkg/event.WrappingDefinitionInstanceBuilder      a value of an empty struct type: no state
+     pkg/expression.enginesLock / enginesMap          the registry of expression engines and its lock (global_maps_ok)
+   -- and the discipline above (fields, captured locals, package-level maps) is complete only as long as there is no
+   other: state shared by every instance in the OS process (a pool, a cache, a memo table, a free list) is where the
+   instances of one program meet. A variable that is not on this list and is not of a type that synchronises itself
+   (sync.Mutex, sync.Map, sync.Pool, the atomic types) is a new proof obligation. *)
+Definition reviewed_package_state : list (string * string) :=
+  [ ("..buildDefaultIDGenerator", "func");
+    ("pkg/event.WrappingDefinitionInstanceBuilder", "value");
+    ("pkg/expression.enginesLock", "sync");
+    ("pkg/expression.enginesMap", "map") ]%string.
+Definition package_state_ok (vars : list (string * string)) : bool :=
+  forallb (fun v => String.eqb (snd v) "sync"      (* a sync / atomic type synchronises itself *)
+                    || existsb (fun r => String.eqb (fst v) (fst r) && String.eqb (snd v) (snd r)) reviewed_package_state) vars.
